@@ -1,4 +1,4 @@
-"""C13, candidate reported in passing by the round-9 C13 seeding agent, reproduced, NOT decided by any rule and NOT repaired (see DESIGN 11.18):
+"""C13, candidate reported in passing by the round-9 C13 seeding agent, reproduced; rule C13.R7 reports it; recorded as a known finding, not repaired (see DESIGN 11.18):
 an @override rule is stored at the position of the rule it overrides; when its body includes (or extends) a rule that was defined AFTER that
 position, the pretty-printed text refers to a rule "not yet defined" and does not recompile.  A repair has to choose where an overriding rule
 is printed (moving it changes the default start rule when the first rule is the one overridden), so it is a design decision, not a patch.
